@@ -515,7 +515,7 @@ pub fn run(run: &mut Run) {
     ];
     run.enumerate("all-chunkings", all_chunkings(run.tier.pick(15, 19)).into_iter(), oracle);
     run.prop("random-streams", strategy, run.tier.pick(120_000, 3_000_000), oracle);
-    run.prop("framed-transport", transport_strategy, run.tier.pick(3_000, 8_000), transport_oracle);
+    run.prop("framed-transport", transport_strategy, run.tier.pick(1_500, 6_000), transport_oracle);
     if run.tier == crate::engine::Tier::Thorough {
         // a declared length exactly at the cap must be attempted (and then fail with EOF, not InvalidData)
         let c = Case { dist: true, msg_lens: vec![3], fill: 1, chunks: vec![5], pending: vec![], eof_at: None, tail_declared: Some(CAP as u32), tail_body: 4, switched: true };
